@@ -39,7 +39,10 @@ class DPTSceneNumber(DPTValue1ByteUnsigned):
         """Serialize to KNX/IP raw data."""
         try:
             knx_value = int(value) - 1
-            if not cls._test_boundaries(knx_value + 1):
+            if not cls._test_boundaries(knx_value + 1) or (
+                # int() truncates towards zero - a fraction beyond a limit is out of range
+                isinstance(value, float) and not cls._test_boundaries(value)  # type: ignore[arg-type]
+            ):
                 raise ValueError("Value out of range")
             return DPTArray(knx_value)
         except (ValueError, OverflowError) as err:
